@@ -601,3 +601,31 @@ func init() {
 		c.Check(ok, "limit-decides-proof", proves[0].Pos(), "a reply cut at the requested limit carries boundary proofs", "the decision to attach proofs never looks at the limit: a request with zero origin and a limit below the last slot is answered with a strict prefix and no proof, which the client rejects")
 	})
 }
+
+func init() {
+	extendProp("C02", "What the JSON decoder requires the JSON encoder always emits: no slice field of txJSON that UnmarshalJSON rejects when absent (nil test) carries the `omitempty` option, which drops it when the list is empty.", nil, func(c *Ctx) {
+		c.Rule("PAIR/C02.jsonrequired")
+		ct := "core/types"
+		_, st := c.Struct(ct, "txJSON")
+		f := c.Fn(ct, "(*Transaction).UnmarshalJSON")
+		if st == nil || f == nil {
+			return
+		}
+		c.Funcs[f] = true
+		n := 0
+		for i := 0; i < st.NumFields(); i++ {
+			fld := st.Field(i)
+			if _, ok := fld.Type().Underlying().(*types.Slice); !ok {
+				continue
+			}
+			required := len(EdgesWhere(f, Cmp(Fld(ct+".txJSON."+fld.Name()), token.EQL, Nil()))) > 0
+			if !required {
+				continue
+			}
+			n++
+			tag := st.Tag(i)
+			c.Check(!strings.Contains(tag, "omitempty"), "always-emitted/"+fld.Name(), fld.Pos(), "required list is emitted even when empty", "the field is required by UnmarshalJSON but dropped by MarshalJSON when the list is empty: a transaction the binary decoder accepts does not survive its own JSON form")
+		}
+		c.Expect(2, n, "slice fields UnmarshalJSON requires")
+	})
+}
